@@ -16,6 +16,7 @@ R15.2  every PipeWriter::PipeSignal enumerator is written somewhere, accepted by
        handled by a branch of handleRead.
 R15.3  (sibling agreement) ProcessExecutor::handleRead and SyncLogForwarder::reportErr forward a worker's
        finding only under hasToLog(msg).
+R15.4  Executor::hasToLog lets every Severity::internal message through (see internal_passthrough).
 """
 import re
 from .common.facts import walk, walk_parents, strip, strip_all, call_args, AnalysisBroken
@@ -296,3 +297,40 @@ def run(ctx):
                    ('%s forwards a worker finding at line %s without hasToLog(msg): duplicates/suppressed findings are shown with this executor only'
                     % (name, r.at_node[i]['l'])), '%s:%s' % (f['file'], r.at_node[i]['l']))
     ctx.floor('R15.3 forwarding sites', n, 2)
+    ctx.rule('R15.4', 'internal messages (addon summaries, checker log) pass the executors\' gate unfiltered')
+    internal_passthrough(ctx, 'R15.4')
+
+
+def internal_passthrough(ctx, rule):
+    """Severity::internal messages (ctuinfo addon summaries, logChecker lines) must pass the executors' gate
+    unconditionally: they carry whole-program data, are not findings, and identical ones are not duplicates.
+    In Executor::hasToLog every return that can be reached with severity == internal returns literal true
+    (sibling of CppCheckLogger::reportErr, which forwards internal messages before any filter)."""
+    F = ctx.facts
+    h = F.one('Executor::hasToLog')
+    b = F.body(h)['body']
+
+    def cond(n, truth):
+        n0 = strip(n)
+        if n0 is not None and n0.get('k') == 'BinaryOperator' and n0.get('op') in ('==', '!=') and any(y.get('n') == 'Severity::internal' for y in walk(n0)) and \
+                any(y.get('k') == 'MemberExpr' and y.get('n') == 'ErrorMessage::severity' for y in walk(n0)):
+            return (('internal', (n0['op'] == '==') == truth),)
+        return ()
+    r = paths.analyse(b, cond=cond, observe=lambda n: n.get('k') == 'ReturnStmt')
+    rets = [(n, st) for kind, n, st in r.exits if kind == 'return']
+    if not rets:
+        raise AnalysisBroken('Executor::hasToLog: no return statements seen')
+    tested = any(('internal', True) in st or ('internal', False) in st for n, st in rets)
+    bad = []
+    for n, st in rets:
+        if ('internal', False) in st:
+            continue
+        v = strip(n['c'][0]) if n.get('c') else None
+        if not (v is not None and v.get('k') == 'CXXBoolLiteralExpr' and v.get('v') is True):
+            bad.append(n['l'])
+    ok = tested and not bad
+    ctx.ob(rule, 'internal-passthrough', ok,
+           'Executor::hasToLog returns true for every Severity::internal message before any suppression or duplicate filter' if ok else
+           ('Executor::hasToLog can return a filtered verdict for a Severity::internal message (return at line(s) %s reachable with severity == internal): identical '
+            'ctuinfo summaries of different files are dropped as duplicates with -j2 and more, so whole-program addon analysis sees fewer summaries than with -j1'
+            % bad) if tested else 'Executor::hasToLog no longer tests for Severity::internal', '%s:%d' % (h['file'], h['line']))
